@@ -177,6 +177,22 @@ def oracle_child(payload):
                 if not d <= 2e-5:
                     fails.append(("direct-conv-multi", f"a one-source catalogue rendered through render_for_model differs from the direct spatial convolution of "
                                                        f"the intrinsic image by {d:.2e} of the peak"))
+            # integer-typed stamps (a delta-function PSF written as [[1]], a small integer kernel): the same law
+            if kind == "pixel":
+                import pysersic.rendering as RD
+                import warnings
+                for ip in (np.ones((1, 1), dtype=np.int32), np.array([[0, 1, 0], [1, 4, 1], [0, 1, 0]], dtype=np.int64)):
+                    with warnings.catch_warnings():
+                        warnings.simplefilter("ignore")
+                        Ri = RD.PixelRenderer((N, N), jnp.asarray(ip))
+                    (x, y, f) = case["positions"][1]
+                    im_i = np.asarray(Ri.render_source(dict(xc=jnp.float32(x), yc=jnp.float32(y), flux=jnp.float32(f)), "pointsource"), dtype=np.float64)
+                    want = f * float(ip.sum())
+                    if not abs(im_i.sum() - want) <= 1e-4 * abs(want):
+                        fails.append(("integer-psf", f"point source at ({x:.2f},{y:.2f}) with an integer-typed {ip.shape} PSF: total {im_i.sum():.6g}, flux × ΣPSF = {want:.6g}"))
+            # every band of a multi-band fit is convolved with ITS OWN PSF
+            if case.get("multiband"):
+                fails += multiband_psf_clause(case, N)
             # a Sersic profile with a point source on top: the point-source part is the PSF stamp at the SAME centre (xc, yc)
             pe = dict(case["ext"])
             fps = 0.4
@@ -191,6 +207,39 @@ def oracle_child(payload):
         except Exception as e:
             fails.append(("exception", f"{type(e).__name__}: {str(e)[:200]}"))
         out.append(dict(fails=fails))
+    return out
+
+
+def multiband_psf_clause(case, N):
+    """two bands with different PSFs through FitMultiBandPoly: each band's recorded model image is what that band's own
+    renderer gives for that band's parameters"""
+    import jax
+    import jax.numpy as jnp
+    from numpyro import handlers
+    import pysersic.multiband as MB
+    from . import pyutil as U
+    rng = np.random.default_rng(case.get("mb_seed", 0))
+    fitters, psfs = [], []
+    for b in range(2):
+        data, rms, _ = U.make_images(rng, N)
+        psf = RC.smooth_asym_psf(rng, [5, 7][b])
+        prior = U.source_prior("pointsource", sky_type="none", xc=N / 2 + 0.3, yc=N / 2 - 0.4, flux=60.0 + 30 * b)
+        fitters.append(U.pysersic.FitSingle(data, rms, psf, prior, renderer=U.RD.FourierRenderer))
+        psfs.append(psf)
+    top = MB.FitMultiBandPoly(fitter_list=fitters, wavelengths=jnp.asarray([1.0, 2.0]), linked_params=["flux"], const_params=["xc", "yc"],
+                              band_names=["g", "r"], wv_to_save=jnp.asarray([1.5]), poly_order=1)
+    tr = handlers.trace(handlers.seed(top.build_model(return_model=True), jax.random.PRNGKey(1))).get_trace()
+    out = []
+    ims = [np.asarray(v["value"], dtype=np.float64) for k, v in tr.items() if k.startswith("model") and v["type"] == "deterministic"]
+    stack = ims[0] if len(ims) == 1 and ims[0].ndim == 3 else (np.stack(ims) if len(ims) == 2 else None)
+    if stack is None or stack.shape[0] != 2:
+        return [("multiband-psf", f"the multi-band model records {[np.shape(i) for i in ims]} instead of one image per band")]
+    for b, band in enumerate(["g", "r"]):
+        pb = {k: tr[f"{k}_{band}"]["value"] if f"{k}_{band}" in tr else tr[k]["value"] for k in ("xc", "yc", "flux")}
+        own = np.asarray(top.fitter_list[b].renderer.render_source(pb, "pointsource"), dtype=np.float64)
+        d = float(np.abs(stack[b] - own).max()) / max(float(np.abs(own).max()), 1e-30)
+        if not d <= 2e-5:
+            out.append(("multiband-psf", f"band {band} of a two-band fit (PSF stamps {psfs[0].shape} and {psfs[1].shape}) differs from the band's own renderer by {d:.2e} of the peak"))
     return out
 
 
@@ -218,7 +267,7 @@ def gen_oracle_cases(ctx, n):
             pos.append((float(rng.uniform(m, N - m - 1)), float(rng.uniform(m, N - m - 1)), float(rng.uniform(1, 100))))
         ext = dict(xc=float(rng.uniform(N / 2 - 3, N / 2 + 3)), yc=float(rng.uniform(N / 2 - 3, N / 2 + 3)), flux=100.0,
                    r_eff=float(rng.uniform(1.0, 2.5)), n=float(rng.uniform(0.8, 2.5)), ellip=float(rng.uniform(0, 0.6)), theta=float(rng.uniform(0, 3)))
-        cases.append(dict(kind=kind, N=N, psf=psf.tolist(), positions=pos, ext=ext))
+        cases.append(dict(kind=kind, N=N, psf=psf.tolist(), positions=pos, ext=ext, multiband=(k % 6 == 2), mb_seed=int(rng.integers(0, 1000))))
     return cases
 
 
